@@ -27,9 +27,11 @@ static char *next_item(char **p) {
 	if (e) { *e = 0; *p = e + 1; } else *p = s + strlen(s);
 	return s;
 }
+static char g_node[300], g_service[64];
 static int sim_getaddrinfo(const char *n, const char *s, const struct addrinfo *h, struct addrinfo **res) {
 	static struct addrinfo ai; static struct sockaddr_in sa;
-	(void)n; (void)s; (void)h;
+	(void)h;
+	snprintf(g_node, sizeof(g_node), "%s", n ? n : "~"); snprintf(g_service, sizeof(g_service), "%s", s ? s : "~");
 	memset(&ai, 0, sizeof(ai)); memset(&sa, 0, sizeof(sa));
 	ai.ai_family = AF_INET; ai.ai_socktype = SOCK_STREAM; ai.ai_protocol = IPPROTO_TCP;
 	ai.ai_addr = (struct sockaddr *)&sa; ai.ai_addrlen = sizeof(sa);
@@ -41,8 +43,11 @@ static int sim_setsockopt(int fd, int l, int o, const void *v, socklen_t n) { (v
 static int sim_close(int fd) { (void)fd; return 0; }
 static int sim_connect(int fd, const struct sockaddr *a, socklen_t l) { (void)fd; (void)a; (void)l; if (!g_connect_ok) { errno = ECONNREFUSED; return -1; } return 0; }
 static ssize_t sim_recv(int fd, void *buf, size_t len, int fl) {
-	char *it = next_item(&g_rp); size_t k, avail = g_slen - g_spos;
+	char *it = next_item(&g_rp); size_t k, avail = g_slen - g_spos; static unsigned long closed_calls;
 	(void)fd; (void)fl;
+	/* a reader that goes on calling recv() after the peer has closed would never come back: the run ends here */
+	if ((it != NULL && it[0] == 'z') || (it == NULL && avail == 0)) { if (++closed_calls > 100000) { printf("READER-SPINS-ON-A-CLOSED-CONNECTION\n"); fflush(stdout); _exit(97); } }
+	else closed_calls = 0;
 	if (it != NULL && it[0] == 'z') return 0;
 	if (it != NULL && it[0] == 'w') { errno = EWOULDBLOCK; return -1; }
 	if (it != NULL && it[0] == 'x') { errno = ECONNRESET; return -1; }
@@ -98,6 +103,19 @@ static void do_line(char *work, const char *orig) {
 		if (res == KSI_OK && KSI_RequestHandle_getResponse(h, &resp, &resp_len) == KSI_OK) puthex(stdout, resp, resp_len); else putchar('-');
 		KSI_RequestHandle_free(h); KSI_NetworkClient_free(cl);
 		free(req); free(g_stream); free(g_wire);
+	} else if (n == 3 && !strcmp(w[0], "baddr")) {
+		/* where the blocking client connects: the node and service it asks the resolver for */
+		KSI_NetworkClient *cl = NULL; KSI_RequestHandle *h = NULL; int res; size_t hl; unsigned char *hb = unhex(w[1], &hl); char host[300];
+		if (hl > 299) hl = 299; memcpy(host, hb, hl); host[hl] = 0; free(hb);
+		g_stream = (unsigned char *)calloc(1, 1); g_slen = 0; g_spos = 0; g_wire = (unsigned char *)calloc(1, 1); g_wlen = 0;
+		g_sends[0] = '-'; g_sends[1] = 0; g_sp = g_sends; g_recvs[0] = 'z'; g_recvs[1] = 0; g_rp = g_recvs; g_connect_ok = 1;
+		g_node[0] = 0; g_service[0] = 0;
+		if (KSI_TcpClient_new(ctx, &cl) != KSI_OK) { printf("NEW-FAILED"); return; }
+		if (KSI_RequestHandle_new(ctx, (const unsigned char *)"\x01\x00", 2, &h) != KSI_OK) { printf("HANDLE-FAILED"); return; }
+		res = sendRequest(cl, h, host, (unsigned)strtoul(w[2], NULL, 10));
+		if (res == KSI_OK) h->readResponse(h);
+		printf("%d ", res); puthex(stdout, (unsigned char *)g_node, strlen(g_node)); putchar(' '); puthex(stdout, (unsigned char *)g_service, strlen(g_service));
+		KSI_RequestHandle_free(h); KSI_NetworkClient_free(cl); free(g_stream); free(g_wire);
 	} else printf("UNKNOWN-OP");
 }
 
